@@ -22,6 +22,7 @@ import sys
 import time
 
 VERIF = os.path.dirname(os.path.dirname(os.path.abspath(__file__)))
+REPO = os.path.normpath(os.path.join(VERIF, "..", "repo"))   # the tree is relocatable: <dir>/verif + <dir>/repo
 HARNESS = os.path.join(VERIF, "harness")
 SPEC = os.path.join(VERIF, "spec")
 KNOWN = os.path.join(VERIF, "known_findings.json")
@@ -188,7 +189,8 @@ class Check:
         out_path = os.path.join(self.work, "tlc%d_%s.out" % (self._ntlc, module))
         if workers is None:
             workers = 1 if mode == "trace" else int(os.environ.get("VERIF_TLC_WORKERS", 12 if self.tier == "thorough" else 8))
-        jopts = ["-XX:+UseParallelGC", "-Xss1g"]
+        # trace validation is single-threaded: the serial collector is 4x faster than ParallelGC on a busy machine
+        jopts = ["-XX:+UseSerialGC" if mode == "trace" else "-XX:+UseParallelGC", "-Xss1g"]
         if xmx:
             jopts.append("-Xmx" + xmx)
         elif mode == "trace":
